@@ -28,7 +28,7 @@ namespace std { class ostream; }     /* Range.h's operator<< template is never i
 
 namespace cv_std
 {
-/* std::list<T> as the slices use it: push_back, iteration, empty. Fixed capacity KMAX. */
+/* std::list<T> as the slices use it: push_back, iteration, empty (plus size/back/front/pop_back/clear). Fixed capacity KMAX. */
 template <class T>
 class list
 {
@@ -44,6 +44,12 @@ public:
     T *begin() { return &elems[0]; }
     T *end() { return &elems[count]; }
     bool empty() const { return count == 0; }
+    size_t size() const { return count; }
+    /* the usual small members, so that an edit of parse()/match() that starts using them stays decidable (seed C43-2) */
+    T &back() { CV_CHECK(count > 0, "stub std::list: back() of a non-empty list"); return elems[count - 1]; }
+    T &front() { CV_CHECK(count > 0, "stub std::list: front() of a non-empty list"); return elems[0]; }
+    void pop_back() { CV_CHECK(count > 0, "stub std::list: pop_back() of a non-empty list"); --count; }
+    void clear() { count = 0; }
 };
 }
 
